@@ -70,6 +70,15 @@ impl Check for C03 {
             }
             c
         });
+        let d = if !heavy && src.chance(1, 150) {
+            // probe of a listed finding: the same leaf script at two depths of a tree
+            let (a, b2, i) = (keys::key_xonly(src.below(4)), keys::key_xonly(4 + src.below(4)), keys::key_xonly(8 + src.below(4)));
+            let pk = |k: &str| crate::mirror::ast::Node::Check(Box::new(crate::mirror::ast::Node::PkK(k.to_string())));
+            use crate::mdesc::MTree;
+            crate::mdesc::MDesc::Tr(i, Some(MTree::Branch(Box::new(MTree::Leaf(pk(&a))), Box::new(MTree::Branch(Box::new(MTree::Leaf(pk(&b2))), Box::new(MTree::Leaf(pk(&a))))))))
+        } else {
+            d
+        };
         let sugar = src.bool();
         let text = d.print(sugar);
         let lib = match glue::desc_via_str(&d, sugar) {
@@ -150,10 +159,29 @@ impl Check for C03 {
             rep.evals += r.nodes as u64;
             truncated |= r.truncated;
             for acc in &r.accepting {
-                let same = path == Path::Script(i) && acc == &w;
+                let mut same = path == Path::Script(i) && acc == &w;
+                // the same leaf script at two positions of a taproot tree with the same Merkle
+                // path (e.g. twin siblings) gives a byte-identical witness: not a second witness
+                if !same && acc == &w {
+                    if let (Path::Script(pi), crate::mdesc::MDesc::Tr(_, Some(t))) = (&path, &d) {
+                        if us[*pi].script == u.script {
+                            if let Ok(model) = t.to_model() {
+                                let ls = model.leaves();
+                                if let (Some(a), Some(b2)) = (ls.get(*pi), ls.get(i)) {
+                                    if a.1 == b2.1 && a.2 == b2.2 {
+                                        same = true;
+                                    }
+                                }
+                            }
+                        }
+                    }
+                }
                 if !same {
+                    // the descriptor itself lists one leaf script at two positions: the third
+                    // party re-uses the witness stack with the other position's control block
+                    let dup_leaf = acc == &w && matches!(&path, Path::Script(pi) if *pi != i && us[*pi].script == u.script);
                     return fail(
-                        &format!("malleable/{}", crate::checks::c02::frag_signature(&d)),
+                        &if dup_leaf { "malleable/duplicate-leaf-script".to_string() } else { format!("malleable/{}", crate::checks::c02::frag_signature(&d)) },
                         format!(
                             "a third party can replace the witness: library stack {:?} (path {:?}); alternative accepted stack {:?} on script #{}",
                             w.iter().map(|x| keys::hex(x)).collect::<Vec<_>>(),
